@@ -43,7 +43,9 @@ def cases(draw, kind, partial):
         for _ in range(draw(st.integers(1, 2))):
             npos = draw(st.sampled_from([0, 0, 1, 1, 2, 3, 4]))
             kws = draw(st.lists(st.sampled_from(kwpool), unique=True, max_size=3)) if draw(st.booleans()) else []
-            layers.append({'npos': npos, 'kw': kws})
+            # functools flattens partial(partial(f, ..), ..) unless the inner partial carries attributes (update_wrapper, __name__ = ...):
+            # 'tagged' layers stay nested
+            layers.append({'npos': npos, 'kw': kws, 'tagged': draw(st.booleans())})
     # effective arity left after the partial (ignoring errors): used only to aim the generator
     fixed_pos = sum(l['npos'] for l in layers)
     fixed_kw = set(k for l in layers for k in l['kw'])
@@ -158,6 +160,8 @@ def build_callable(case, log):
     vals = iter(range(100, 200))
     for l in case['layers']:
         target = functools.partial(target, *[next(vals) for _ in range(l['npos'])], **dict((k, next(vals)) for k in l['kw']))
+        if l.get('tagged'):
+            target.__name__ = 'tagged_partial'       # an instance attribute: a partial built on top of this one is NOT flattened
     return target, faces
 
 
@@ -217,6 +221,8 @@ def run_case(case):
     kwonly = S.has_kwonly(sig)
     kindtag = ('partial-of-' if case['partial'] else '') + case['kind']
     classes = ['kind:' + kindtag]
+    if len(case['layers']) >= 2 and case['layers'][0].get('tagged'):
+        classes.append('nested_unflattened_partial')
     for w in case.get('warm', []):
         wa = tuple(range(w['npos']))
         if w['face'] == 'plain' and case['kind'] != 'function':
@@ -268,7 +274,7 @@ def describe(case):
     return d
 
 
-REQUIRED_CLASSES = ['valid', 'invalid', 'kwonly', 'varargs', 'varkw', 'near_arity'] + ['warm_face:' + f for f in FACES] + ['kind:' + k for k in KINDS] + ['kind:partial-of-' + k for k in KINDS]
+REQUIRED_CLASSES = ['nested_unflattened_partial', 'valid', 'invalid', 'kwonly', 'varargs', 'varkw', 'near_arity'] + ['warm_face:' + f for f in FACES] + ['kind:' + k for k in KINDS] + ['kind:partial-of-' + k for k in KINDS]
 
 
 def _t_kwonly(case, discr):
